@@ -1,16 +1,26 @@
 (* C14 — _random_number_to_data transcribed over IEEE binary64 (Coq primitive floats), used ONLY for the
-   supplementary floating-point witness of finding C14-1 (Proofs/C14_Float.v).  Not extracted, not part
-   of Props/C14.v (primitive floats show up in Print Assumptions as kernel primitives). *)
+   supplementary floating-point witness (Proofs/C14_Float.v).  Not extracted, not part of Props/C14.v (primitive
+   floats show up in Print Assumptions as kernel primitives).
+     rn2data_f             the code as repaired by fixes/C14-rn2data-fallback-zero-probability (single loop)
+     rn2data_f_before_fix  the code AS CODED BEFORE that fix (`return len(probdist) - 1`) *)
 From Coq Require Import Floats List ZArith.
 Import ListNotations.
 Local Open Scope float_scope.
+
+Fixpoint rn2d_f (ps : list float) (cum r : float) (idx : nat) (lp : Z) : Z :=
+  match ps with
+  | [] => lp
+  | p :: t => let c := cum + p in
+              if r <? c then Z.of_nat idx else rn2d_f t c r (S idx) (if 0 <? p then Z.of_nat idx else lp)
+  end.
+Definition rn2data_f (ps : list float) (r : float) : Z := rn2d_f ps 0 r O (Z.of_nat (length ps) - 1)%Z.
 
 Fixpoint rn2d_go_f (ps : list float) (cum r : float) (idx : nat) : option nat :=
   match ps with
   | [] => None
   | p :: t => let c := cum + p in if r <? c then Some idx else rn2d_go_f t c r (S idx)
   end.
-Definition rn2data_f (ps : list float) (r : float) : Z :=
+Definition rn2data_f_before_fix (ps : list float) (r : float) : Z :=
   match rn2d_go_f ps 0 r O with Some i => Z.of_nat i | None => (Z.of_nat (length ps) - 1)%Z end.
 
 (* the double nearest to 0.1 *)
